@@ -111,7 +111,19 @@ def defuzzifier_results_fresh(check: Check, rule: str = "O9") -> None:
             return stored(t[1][1], depth + 1)
         if t[0] == "sub":
             return stored(t[1], depth + 1)
+        if t[0] == "call" and t[1][0] == "attr" and t[1][1] == SELF and depth < 3 and current[0] is not None:
+            # a helper method of the defuzzifier: what it returns is what is handed out
+            helper = current[0].lookup(t[1][2])
+            if helper is not None and helper.name != "defuzzify":
+                rh = Resolver(p, helper)
+                for n_ in rh.cfg.stmt_nodes():
+                    if isinstance(n_.ast, ast.Return) and n_.ast.value is not None:
+                        s_ = stored(rh.term(n_.ast.value, n_), depth + 1)
+                        if s_ is not None:
+                            return s_
         return None
+
+    current: list = [None]
 
     def immutable_attr(c, name: str) -> bool:  # type: ignore[no-untyped-def]
         """Every value the classes of `c` give the attribute is a Python number / None / string: nothing that can be written in place."""
@@ -151,6 +163,7 @@ def defuzzifier_results_fresh(check: Check, rule: str = "O9") -> None:
         check.analysed(f)
         r = Resolver(p, f)
         hit = None
+        current[0] = c
         for n in r.cfg.stmt_nodes():
             if isinstance(n.ast, ast.Return) and n.ast.value is not None:
                 n_ret += 1
